@@ -31,7 +31,7 @@ EXHAUSTIVE = {}
 
 def BOUNDS(tier):
     b = 2 if tier == 'quick' else 3
-    return 'hr: n1,n2 <= %d; spa: n1 <= %d, n2 <= 3, n3 <= 3 (incl. more lecturers than projects); all list-length vectors, all lists, all shuffles' % (b, b)
+    return 'hr: n1,n2 <= %d (total list length <= 6); spa: n1 <= %d, n2 <= 3, n3 <= 3 (incl. more lecturers than projects; total list length <= 5 when n1 = 3); all list-length vectors within that, all lists, all shuffles' % (b, b)
 
 
 def tasks(tier, seed):
@@ -40,6 +40,8 @@ def tasks(tier, seed):
     for n1 in range(1, b + 1):
         for n2 in range(1, b + 1):
             for lens in itertools.product(range(1, n2 + 1), repeat=n1):
+                if sum(lens) > 6:
+                    continue
                 out.append({'kind': 'hr', 'n1': n1, 'n2': n2, 'n3': 0, 'lens': list(lens)})
     for n1 in range(1, b + 1):
         for n2 in range(1, 4):
@@ -48,6 +50,8 @@ def tasks(tier, seed):
                     continue
                 for lens in itertools.product(range(1, n2 + 1), repeat=n1):
                     if tier == 'quick' and n1 == 2 and lens[0] > lens[1]:
+                        continue
+                    if sum(lens) > 5 and n1 == 3:
                         continue
                     out.append({'kind': 'spa', 'n1': n1, 'n2': n2, 'n3': n3, 'lens': list(lens)})
     return out
